@@ -19,6 +19,8 @@ def cfg_name(cfg):
         parts.append(f"fmw={cfg['flat_max_words']}")
     if cfg.get('last_ops') is not None:
         parts.append(f"ring={cfg['last_ops']}")
+    if cfg.get('trace'):
+        parts.append('trace')
     if cfg.get('probe'):
         parts.append(f"probe={cfg['probe']}")
     return ','.join(parts)
